@@ -208,6 +208,15 @@ def block_verdict(b):
     return False, None
 
 
+def failed_comparison(b):
+    """a `** Compare-k …` line of the block reports a failure"""
+    for l in b[2:-2]:
+        t = "".join(c for c in ANSI.sub("", l) if ord(c) >= 32)
+        if t.startswith("** Compare-") and t.rstrip().endswith("[ FAILED]"):
+            return True
+    return False
+
+
 def run_once(binary, root, j, yseed, extra=(), timeout=300, _attempt=0):
     for f in ("tfel-check.log",):
         try:
@@ -361,6 +370,11 @@ def run(ck):
                            dict(rep, block=b[:12]))
                 else:
                     observed_verdict[n] = v
+                    if v and failed_comparison(b):
+                        ok = False
+                        report("tfel-check/src/TestLauncher.cxx:execute:verdict", True,
+                               "%s is reported as a success although one of its comparisons failed" % n,
+                               dict(rep, block=b[:16]))
             any_failed = any(v is False for v in observed_verdict.values())
             if ok and (rc == 1) != any_failed:
                 ok = False
